@@ -87,6 +87,14 @@ func (d *stallDriver) run(stop <-chan struct{}, maxStalls int) {
 		if n+1 < maxStalls {
 			next = d.conns[other].StallNext(pickK(d.rng))
 		}
+		if k := st.Intrusions(); k > 0 {
+			d.w.fail("write-interleaved", Fmt("%d Write calls delivered bytes on a connection of pair %d while another frame was half written (stalled): the frames are interleaved on the wire", k, d.pair),
+				Fmt("%s pair=%d", d.w.spec, d.pair))
+			st.Release()
+			d.w.abortNow()
+			st = nil
+			return
+		}
 		st.Release()
 		atomic.AddInt64(&d.w.stalls, 1)
 		d.w.count("sched:stall")
